@@ -136,6 +136,44 @@ def Stage.fusable (a b : Stage E) : Bool := a.aggs.isEmpty || b.ops.isEmpty
 def Stage.fuse? (a b : Stage E) : Except ErrKind (Stage E) :=
   if a.fusable b then .ok (a.fuse b) else .error .value
 
+/-! ### Building a pipeline through the public API
+
+A pipeline is written as a sequence of transforms `TreeTransform.new(name=…)`, each filled by builder
+calls, and joined with `.chain(...)`: equal names fuse, different names start a new stage. -/
+
+inductive Attach where
+  | chain   -- the child has a new name
+  | fuse    -- the child has the name of the last transform of the chain
+  deriving DecidableEq, Repr
+
+def Stage.empty : Stage E := { ops := [], aggs := [] }
+
+/-- one builder call: `apply`/`assign`/`select`/`filter`/`batch` → `_maybe_new_transform`
+(transform.py:1129-1137: `ValueError` "Aggregation has to be the last node" once the transform has
+aggregates); `aggregate`/`add_aggregate` → `_maybe_new_agg_transform` (1118-1127) -/
+def Stage.push? (s : Stage E) : Item E → Except ErrKind (Stage E)
+  | .op o => if s.aggs.isEmpty then .ok { s with ops := s.ops ++ [o] } else .error .value
+  | .agg a => .ok { s with aggs := s.aggs ++ [a] }
+
+/-- a transform built by builder calls in program order -/
+def mkTransform (its : List (Item E)) : Except ErrKind (Stage E) := its.foldlM Stage.push? Stage.empty
+
+/-- `p.chain(t)` (transform.py:820-847) -/
+def attach (p : List (Stage E)) (how : Attach) (t : Stage E) : Except ErrKind (List (Stage E)) :=
+  match how, p.getLast? with
+  | .fuse, some l =>
+    match l.fuse? t with
+    | .ok s => .ok (p.dropLast ++ [s])
+    | .error e => .error e
+  | _, _ => .ok (p ++ [t])
+
+/-- the whole pipeline: every transform is built, then chained onto what came before -/
+def assemble (ts : List (Attach × List (Item E))) : Except ErrKind (List (Stage E)) :=
+  ts.foldlM (fun p t =>
+    match mkTransform t.2 with
+    | .ok s => attach p t.1 s
+    | .error e => .error e) []
+
 /-! ## Threads -/
 
 /-- `ys` is an interleaving of the lists `parts` (each part's order is kept): what a consumer of
